@@ -1,7 +1,7 @@
 (* Extract/Val.v -- a small universal value type used on the wire between the
    extracted model and the Python harness. *)
-From Coq Require Import List NArith ZArith String Ascii.
-From PyTRS Require Import Engine.Regex.
+From Coq Require Import List NArith ZArith.
+From PyTRS Require Import Engine.Regex PyRt.Str.
 Import ListNotations.
 
 Inductive pv :=
@@ -12,16 +12,6 @@ Inductive pv :=
 | VList (l : list pv)
 | VTuple (l : list pv)
 | VExn (name : str).
-
-(* ASCII string literal -> code points *)
-Definition s (x : string) : str := map N_of_ascii (list_ascii_of_string x).
-
-Fixpoint str_eqb (a b : str) : bool :=
-  match a, b with
-  | [], [] => true
-  | x :: a', y :: b' => (x =? y)%N && str_eqb a' b'
-  | _, _ => false
-  end.
 
 Definition vnat (n : nat) : pv := VInt (Z.of_nat n).
 Definition vopt {A} (f : A -> pv) (o : option A) : pv :=
